@@ -148,8 +148,22 @@ func syncSetup(env *h.Env, src, dst *h.Tree, memSrc, memLinkFull bool) (fsutil.F
 
 // convergenceErrs is C01's oracle: after a successful non-merge transfer of
 // the model tree src into a destination whose earlier state was `before`.
-func convergenceErrs(after, before h.Snap, src *h.Tree, filter int) *h.Errs {
+func convergenceErrs(after, before h.Snap, src *h.Tree, filter int, keepOld ...func(string) bool) *h.Errs {
 	want := h.ExpectedSnap(src)
+	if len(keepOld) > 0 {
+		// identity-based differencing: a file whose identity did not change keeps
+		// the bytes it had, and members of its link group share them
+		for p, e := range want {
+			if b := before[p]; e.Kind == h.KFile && b != nil && keepOld[0](p) {
+				e.Sha, e.Size = b.Sha, b.Size
+			}
+		}
+		for _, n := range src.Nodes {
+			if n.Kind == h.KFile && n.LinkTo != "" {
+				want[n.Path].Sha, want[n.Path].Size = want[n.LinkTo].Sha, want[n.LinkTo].Size
+			}
+		}
+	}
 	for _, e := range want {
 		switch filter {
 		case 1:
